@@ -11,25 +11,33 @@ THEOREM_FILE = "Properties/C04.v"
 IMPORTS = "From Annet Require Import Base.Str Base.Tree Model.Offside Gen.Src_vendors Model.Join Spec.P_C04."
 TY = "(string * string * forest) * outcome"
 META = {
-    "text": "Proof (Coq, unbounded depth/width, any indent of >=1 blanks, any tree with unique sibling rows): for the "
-            "plain-indent family (pc, optixtrans, huawei, h3c, nexus, iosxr, arista, aruba, b4com, cisco) and the brace "
-            "family (juniper, ribbon, nokia) parse_to_tree(split_v(join_v(t))) = t on rows satisfying the per-vendor "
-            "boolean wf_row (no delimiter the vendor's split strips), plus the fixed point join(parse(join t)) = join t; "
-            "for RouterOS the same on its domain (section words then leaf rows) for the formatter that takes the section "
-            "path from context.row. The vendor table (14 vendors: formatter class, which class defines join/split, "
-            "delimiters, policy-end words, regex sources) is re-read from the repository on every run and the theorems "
-            "are instantiated for every registered vendor. Correspondence: Coq compares model and real "
-            "make_formatter(indent).join / parse_to_tree(text, fmt.split) outcomes and evaluates the round-trip "
-            "predicate on the real outcomes for all 14 vendors.",
+    "text": "Proof (Coq, unbounded depth/width, any indent string of >=1 blanks, any tree with unique sibling rows): "
+            "parse_to_tree(split_v(join_v(t))) = t and the fixed point join(parse(join t)) = join t for all three "
+            "formatter families - plain indentation (pc, optixtrans, huawei, h3c, nexus, iosxr, arista, aruba, b4com, "
+            "cisco), braces (juniper, ribbon, nokia) and RouterOS (section words, then leaf rows; for the formatter "
+            "that takes the section path from context.row) - on rows satisfying the per-vendor boolean wf_row (no "
+            "delimiter the vendor's split strips: policy-end words, braces/semicolons, comment openers, the configure "
+            "wrapper, double blanks where split collapses them). The proofs rest on the C05 theorem (stack parser = "
+            "declarative offside reference) and the rebuild lemma. The vendor table (14 vendors: formatter class, which "
+            "class defines join/split/_blocks/blocks_and_context/_formatted_blocks, delimiters, policy-end words, "
+            "regex sources, RouterOS context level) is re-read from the repository on every run; a theorem states it "
+            "equals the table the property is written over, and C04_holds instantiates the round trip for every one of "
+            "the 14 vendors. Correspondence: Coq compares model and real make_formatter(indent).join / "
+            "parse_to_tree(text, fmt.split) / re-join outcomes and evaluates the round-trip predicate on the real "
+            "outcomes for all 14 vendors (random trees to depth 6 over a vendor-aware alphabet with near-delimiter "
+            "words, exhaustive small trees per vendor).",
     "technique": "Coq induction over forests on top of the C05 offside theorem and the rebuild lemma; generated vendor "
                  "table; vm_compute differential check against the real formatters",
-    "note": "Cisco rows starting with address-family (non-default block exit) are excluded from the theorem by a guard: "
-            "join emits no exit-address-family, split shifts every later line (C04_cisco_af_refuted; open finding). "
-            "RouterOS: the shipped blocks_and_context takes the section path from context.parent and does not "
-            "round-trip nested sections (C04_ros_parent_ctx_refuted; fix in fixes/C04-routeros-join-section-path.patch; "
-            "the theorem is about the context.row variant, the model follows whichever the source has). The join/split "
-            "algorithms themselves are tied to the code by correspondence only (testing); Juniper comment rows "
-            "(/* json */) and RouterOS /file and /user ssh-keys post-processing are not modelled.",
+    "note": "Guards (each with a refutation witness replayed on the real code): Cisco rows starting with "
+            "address-family (non-default block exit) - join emits no exit-address-family and split shifts every later "
+            "line (C04_cisco_af_refuted; open finding, no small repair); RouterOS sub-sections while the source takes "
+            "the section path from context.parent (C04_ros_parent_ctx_refuted; open finding with repair "
+            "fixes/C04-routeros-join-section-path.patch - C04_ros proves the repaired variant, the model follows "
+            "whichever variant the source has, sections holding only rows are proved for both). The join/split "
+            "algorithms are tied to the code by the correspondence run only (testing); Juniper comment rows "
+            "(/* json */), RouterOS /file and /user ssh-keys post-processing and is_patch=True paths are not modelled. "
+            "Side observation (not C04): Cisco/Nexus/ASR/Arista/Aruba/B4com formatters pass `indent` positionally into "
+            "no_block_exit, so their join always indents by two blanks whatever indent is requested.",
 }
 
 SIG_CISCO = "C04/cisco/address-family-block-not-closed-by-exit-address-family"
